@@ -12,6 +12,30 @@ def not_zip_case(c):
     return not (c["mode"] == "sequential" and c["dask"] and sum(1 for p in c["params"] if p["enabled"]) >= 2)
 
 
+def readout_sweeps(ctx):
+    """Sweeps over the readout times themselves (`observation.readout.times` x an illumination level, both
+    declaration orders, sequential loop and dask): the caller's detector, pipeline and Readout are the same,
+    field by field, after the observation (PyxelObservation: no action writes `user`)."""
+    from harness import check, obs
+    jobs = []
+    for order in ("level-first", "times-first"):
+        for dask_, sch, w in ((False, None, None), (True, "synchronous", None), (True, "threads", 3)):
+            jobs.append({"bases": [1, 3], "times": [2048, 4096, 1024], "order": order, "dask": dask_, "scheduler": sch,
+                         "workers": w, "base_time": 0.5})
+            if not ctx.quick:
+                jobs.append({"bases": [2], "times": [512, 8192], "order": order, "dask": dask_, "scheduler": sch,
+                             "workers": w, "base_time": 3.0})
+    for r in check.pmap(obs.flux_sweep_job, jobs, chunksize=1):
+        ctx.cov["recorded_random"] += 1
+        if r["user_after"] is None:
+            continue        # the sweep failed: C17 reports it
+        diff = sorted(k for k in r["user_before"] if r["user_before"][k] != r["user_after"][k])
+        if diff:
+            ctx.violation("user.mutated", f"sweep over the readout times changed the caller's {diff}: "
+                          f"{ {k: r['user_before'][k] for k in diff} } -> { {k: r['user_after'][k] for k in diff} } ({r['job']})",
+                          {"kind": "readout-sweep", "job": r["job"]}, {"fields": diff})
+
+
 def run(ctx):
     _, cases = O.family(ctx)
     ctx.cov["exhaustive"] = True
@@ -32,12 +56,21 @@ def run(ctx):
     C05.big_spaces(ctx, prop="C06", sched=("synchronous", "threads"), keep=not_zip_case)
     from harness.drivers import _calib
     _calib.check_isolation(ctx)
+    readout_sweeps(ctx)
     ctx.assumptions += ["stateful probes: a counter kept in detector._memory and a list argument mutated in place; every "
                         "run must see the caller's original state", "the caller's detector, pipeline and readout are "
                         "compared field by field before/after (never with pyxel's ==)"]
 
 
 def replay(ctx, payload):
+    if payload["case"].get("kind") == "readout-sweep":
+        from harness import obs
+        r = obs.flux_sweep_job(payload["case"]["job"])
+        if r["user_after"] is not None and r["user_before"] != r["user_after"]:
+            diff = sorted(k for k in r["user_before"] if r["user_before"][k] != r["user_after"][k])
+            ctx.violation("user.mutated", f"sweep over the readout times changed the caller's {diff}",
+                          payload["case"], {"fields": diff})
+        return ctx.finish()
     if payload["case"].get("kind") in ("eval", "calib"):
         from harness.drivers import _calib
         return _calib.replay(ctx, payload)
